@@ -406,11 +406,16 @@ Inductive op :=
 | OSAppV (k : nat) (a : vexp) | OSAppC (k : nat) (c : byte) | OSPush (k : nat) (c : byte)
 | OSCmp (a b : nat) | OSCmpC (a : nat) (b : nat) (off : N)
 | OSSw (k : nat) (a : vexp) | OSEw (k : nat) (a : vexp) | OSHash (k : nat)
-| OSDetach (k : nat) | OSSwap (a b : nat) | OSDel (k : nat).
+| OSDetach (k : nat) | OSSwap (a b : nat) | OSDel (k : nat)
+(* std::move: basic_string declares a copy constructor and a destructor and NO move constructor / move assignment, so
+   basic_string t(std::move(s)) is the copy constructor, t = std::move(s) copy-constructs the by-value parameter of
+   operator=, and passing std::move(s) by value copies too: the source is unchanged *)
+| OSMoveCtor (k : nat) | OSMoveAssign (d s : nat) | OSByVal (k : nat) | OTraits.
 
 Inductive out :=
 | OutUnit | OutN (n : N) | OutB (b : bool) | OutZ (z : Z) | OutOpt (o : option N)
 | OutView (v : view) (txt : list byte) | OutStr (k : nat) (s : str) (buf : option (list byte))
+| OutTraits (nothrow_move_ctor trivially_move_ctor nothrow_move_assign : bool)
 | OutBad.     (* malformed script (index out of range / dead slot): generator bug *)
 
 Record world := mkW { wct : cty; wst : st; wbufs : list nat; wviews : list view; wstrs : list (option str) }.
@@ -457,6 +462,10 @@ Inductive effect :=
 | FNone | FNewBuf (id : nat) | FNewView (v : view) | FNewStr (s : str)
 | FSetStr (k : nat) (s : option str) | FSet2 (a : nat) (sa : str) (b : nat) (sb : str).
 
+(* final step of an op whose printed result depends on the state it ends in *)
+Definition retO (g : st -> out) (f : effect) : M (out * effect) := fun st => (Ok (g st, f), st).
+Definition src_out (k : nat) (s : str) (st : st) : out :=
+  OutStr k s (match sbuf s with Some b => mem_get (smem st) b | None => None end).
 Definition pure_out (c : M out) : M (out * effect) := o <~ c ;; retM (o, FNone).
 Definition lift_out {A} (c : mem -> R A) (f : A -> out) : M out := x <~ liftR c ;; retM (f x).
 
@@ -560,6 +569,19 @@ Definition do_op (w : world) (o : op) : M (out * effect) :=
       match get_str w k with
       | Some s => _ <~ s_destroy s ;; retM (OutUnit, FSetStr k None)
       | None => retM (OutBad, FNone) end
+  | OSMoveCtor k =>          (* printed: the source after the "move", then the new string *)
+      match get_str w k with
+      | Some s => r <~ s_copy s ;; retO (src_out k s) (FNewStr r)
+      | None => retM (OutBad, FNone) end
+  | OSMoveAssign d s =>      (* printed: the source after the "move" (the new value when d = s), then the destination *)
+      match get_str w d, get_str w s with
+      | Some sd, Some ss => r <~ s_assign sd ss ;; retO (src_out s (if Nat.eqb d s then r else ss)) (FSetStr d (Some r))
+      | _, _ => retM (OutBad, FNone) end
+  | OSByVal k =>             (* f(s) / f(std::move(s)) with f(basic_string p): p is a copy, destroyed at return; result p.size() *)
+      match get_str w k with
+      | Some s => r <~ s_copy s ;; _ <~ s_destroy r ;; retM (OutN (slen r), FNone)
+      | None => retM (OutBad, FNone) end
+  | OTraits => retM (OutTraits false false false, FNone)
   end.
 
 Definition apply_effect (w : world) (s : st) (f : effect) : world :=
